@@ -48,4 +48,107 @@ def tms1000_lines(rng, per_opcode):
     return lines, {"opcodes": 256, "strata(opcode,x,y)": len(strata)}
 
 
-GENERATORS = {"tms1000": tms1000_lines}
+# ---- 8008 -----------------------------------------------------------------------------------
+def i8008_lines(rng, per_opcode):
+    """all 256 opcodes x per_opcode states: SP at 0 and 7 (both edges of stack[8]), PC at 0 / 0xffff / 0xfffe (operands
+    wrapping through the top of memory), H:L at 0 and 0xffff, every flag combination over the run"""
+    lines, strata = [], set()
+    for opcode in range(256):
+        for i in range(per_opcode):
+            edge = i < 4
+            pc = rng.choice([0, 0xffff, 0xfffe, 0xfffd, 0x3fff]) if edge else rng.getrandbits(16)
+            sp = rng.choice([0, 7]) if edge else rng.randrange(8)
+            reg = [rng.choice([0, 0xff, 0x80, 0x7f, rng.getrandbits(8)]) for _ in range(8)]
+            if edge:
+                reg[5], reg[6] = rng.choice([(0, 0), (0xff, 0xff), (0xff, 0xfe), (0x3f, 0xff)])
+            stack = [rng.choice([0, 0xffff, rng.getrandbits(16)]) for _ in range(8)]
+            st = [("pc", pc), ("sp", sp), ("fp", rng.randrange(2)), ("fs", rng.randrange(2)), ("fc", rng.randrange(2)),
+                  ("fz", rng.randrange(2))] + common(rng) + [("reg", hexarr(reg, 2)), ("stack", hexarr(stack, 4))]
+            mem = {}
+            for k in range(1, 4):
+                mem[(pc + k) & 0xffff] = rng.choice([0, 0xff, rng.getrandbits(8)])
+            if pc == 0xffff:
+                mem[0x10000] = rng.getrandbits(8)          # Memory::read16(0xffff) reads address 0x10000
+            mem[(reg[5] << 8) | reg[6]] = rng.getrandbits(8)
+            mem[pc] = opcode
+            lines.append("simx 8008 %s %s" % (kv(st), cells(mem)))
+            strata.add((opcode, sp))
+    return lines, {"opcodes": 256, "strata(opcode,sp)": len(strata)}
+
+
+# ---- lc3 ------------------------------------------------------------------------------------
+def lc3_lines(rng, per_pattern):
+    """first opcode byte (bits 15..8: operation, DR, n/z/p) exhaustive x 4 patterns of the low byte (mode bit 5,
+    0x3f / 0x00 / 0xc0 forms) + random low bytes; PC at 0 / 0xffff, registers at 0 / 0xffff / 0x8000, PSR with
+    every n/z/p and the privilege bit, stop_running both ways"""
+    lines, strata = [], set()
+    lows = [0x00, 0x3f, 0xc0, 0x20, 0x1f, 0xff]
+    for hi in range(256):
+        for i in range(per_pattern):
+            lo = lows[i] if i < len(lows) else rng.getrandbits(8)
+            opcode = (hi << 8) | lo
+            edge = i < 4
+            pc = rng.choice([0, 0xffff, 0xfffe, 0x3000, 0x7fff, 0x8000]) if edge else rng.getrandbits(16)
+            reg = [rng.choice([0, 0xffff, 0x8000, 0x7fff, 1, rng.getrandbits(16)]) for _ in range(8)]
+            psr = rng.choice([0, 1, 2, 4, 7, 0x8000, 0x8002, 0x0700, rng.getrandbits(16)])
+            st = [("pc", pc), ("psr", psr)] + common(rng) + [("reg", hexarr(reg, 4))]
+            mem = {}
+            def word(a, v):
+                mem[(a & 0xffff) * 2] = v >> 8
+                mem[(a & 0xffff) * 2 + 1] = v & 0xff
+            # operands: pc-relative, base+offset, trap vector, indirect targets
+            off9 = opcode & 0x1ff
+            if off9 & 0x100:
+                off9 |= 0xff00
+            tgt = (pc + 1 + off9) & 0xffff
+            ind = rng.choice([0, 0xffff, rng.getrandbits(16)])
+            word(tgt, ind)
+            word(ind, rng.getrandbits(16))
+            word(opcode & 0xff, rng.getrandbits(16))
+            off6 = opcode & 0x3ff
+            if off6 & 0x200:
+                off6 |= 0xfe00
+            word(reg[(opcode >> 6) & 7] + off6, rng.getrandbits(16))
+            word(pc, opcode)
+            lines.append("simx lc3 %s %s" % (kv(st), cells(mem)))
+            strata.add((hi, lo & 0x20))
+    return lines, {"first_bytes": 256, "strata(hi,bit5)": len(strata)}
+
+
+def parse_answer(a):
+    """'ret=<r> k=v,... mem=<cells>' -> (ret, {k: str}, {addr: byte}) or None"""
+    parts = a.split(" ")
+    if len(parts) != 3 or not parts[0].startswith("ret=") or not parts[2].startswith("mem="):
+        return None
+    st = dict(x.split("=", 1) for x in parts[1].split(","))
+    mem = {}
+    if parts[2] != "mem=-":
+        for c in parts[2][4:].split(","):
+            x, y = c.split(":")
+            mem[int(x, 16)] = int(y, 16)
+    return int(parts[0][4:]), st, mem
+
+
+def _arr(st, k, digits):
+    v = st[k]
+    return [int(v[i:i + digits], 16) for i in range(0, len(v), digits)]
+
+
+def inv_tms1000(st):
+    bad = [k for k, lim in (("pc", 64), ("pa", 16), ("pb", 16), ("sr", 64), ("cl", 2), ("s", 2), ("a", 16), ("x", 4), ("y", 16))
+           if int(st[k], 16) >= lim]
+    if any(v >= 16 for v in _arr(st, "ram", 2)):
+        bad.append("ram")
+    return bad
+
+
+def inv_8008(st):
+    return ["sp"] if int(st["sp"], 16) >= 8 else []
+
+
+# the invariant each simulator maintains (checked on the REAL state after every step) and the size of its address space
+INVARIANT = {"tms1000": inv_tms1000, "8008": inv_8008, "lc3": lambda st: []}
+MEM_LIMIT = {"tms1000": 0x400, "8008": 0x10000, "lc3": 0x20000}
+# tms1000 never writes simulated memory: its limit is only used for "cells not given must stay absent"
+
+GENERATORS = {"tms1000": tms1000_lines, "8008": i8008_lines, "lc3": lc3_lines}
